@@ -45,6 +45,9 @@ claimed = {
  "C11": ("sibling agreement + decision tables on the RefsFor / point-lookup paths", "DESIGN §3.4, §4 C11",
    "Update-index delta written by the writer is added back on every path that yields a caller's RefRecord; every point lookup compares the name found; both filters yield exactly on value/peeled-value match; merged RefsFor re-checks against its own view; object index fed from value and peeled value; nilable iterators checked.",
    "exactness of the result set for given data and object-index contents are not decided"),
+ "C02": ("writer index typestate (verified summaries) + seek decision tables", "DESIGN §3.1, §3.3, §4 C02",
+   "No index block is dropped unflushed and no pending index entry survives a section on any path of the writer; index entries record the block's start offset; in-block scan, restart predicate, linear block skip and index descent agree with their specification for all valuations; reads from a table iterator roll over blocks.",
+   "necessary conditions only: equality of seek+scan with the scan suffix for a given table is not decided (offset/padding arithmetic)"),
 }
 not_applicable_reason = {
  "C17": "quantifies over numeric size vectors and workload sizes (size classes, cumulative byte sums, 2*log2 N depth, N*log2 N cost); no clause is decidable from the shape of the code, and evaluating the chooser on enumerated vectors would be a runtime test (DESIGN §4 C17)",
